@@ -157,4 +157,3 @@ func ruleDeterminismState(c *Ctx) {
 	}
 }
 
-func runThorough(c *Ctx, spec *PropSpec, verif, repo string, extra map[string]any) {}
